@@ -9,6 +9,11 @@
      uid4 t             instance uid of such a tuple
      single_root c      the root content item when content is a dataset or a
                         one-item sequence
+     reroot it          the root item _SR.from_dataset rebuilds from a parsed dataset
+     root_typed it      it has no referenced instance and no optional attribute
+                        other than template (key 1) and continuity (key 2)
+     attr_get k a       the values of optional attribute k
+     is_report it       it declares template identifier 1500
      holds_3d c         the document class can hold 3-D coordinates *)
 From Coq Require Import String ZArith List Bool Permutation.
 From HD Require Import Base.Val C15_Model C15_Proofs C15_Proofs_Doc C15_Proofs_Seg.
@@ -186,16 +191,68 @@ Proof. exact verified_recorded. Qed.
 Print Assumptions C15_verified_recorded.
 
 (* ---- parsing (file = document value, premise W1) --------------------------------------------- *)
-Theorem C15_srread_roundtrip : forall c a d, sr_init c a = Ok d -> srread d = Ok (c, d).
+(* _SR.from_dataset rebuilds the root from value type, name, children, continuity and template;
+   every descendant (with all of its optional attributes) is carried over as it is *)
+Theorem C15_from_dataset_spec : forall target has_cs d d',
+  sr_from_dataset target has_cs d = Ok d' ->
+  d' = set_content d (reroot (d_content d)) /\ has_cs = true /\ i_vt (d_content d) = CONTAINER /\
+  (target = Comprehensive -> d_cls d = 1) /\ (target = Comprehensive3D -> d_cls d = 2).
+Proof. exact from_dataset_spec. Qed.
+Print Assumptions C15_from_dataset_spec.
+
+Theorem C15_parsed_root_keeps : forall it,
+  i_vt (reroot it) = i_vt it /\ i_tag (reroot it) = i_tag it /\ i_kids (reroot it) = i_kids it /\
+  descendants (reroot it) = descendants it /\
+  (forall k, root_key k = true -> attr_get k (i_attrs (reroot it)) = attr_get k (i_attrs it)) /\
+  is_report (reroot it) = is_report it.
+Proof. exact reroot_keeps. Qed.
+Print Assumptions C15_parsed_root_keeps.
+
+Theorem C15_parsed_root_equal_iff : forall it, reroot it = it <-> i_rel it = 0 /\ root_typed it.
+Proof. exact reroot_iff. Qed.
+Print Assumptions C15_parsed_root_equal_iff.
+
+Theorem C15_srread_spec : forall c a d, sr_init c a = Ok d ->
+  srread d = Ok (c, set_content d (reroot (d_content d))).
+Proof. exact srread_spec. Qed.
+Print Assumptions C15_srread_spec.
+
+(* parsing a written document exposes an equal tree (and the same document) EXACTLY when the root
+   given carries no optional attribute besides template and continuity - which is all a
+   ContainerContentItem can be constructed with, for every declared template (1500 or not) *)
+Theorem C15_srread_roundtrip : forall c a d, sr_init c a = Ok d ->
+  (srread d = Ok (c, d) <-> root_typed (d_content d)).
 Proof. exact srread_roundtrip. Qed.
 Print Assumptions C15_srread_roundtrip.
 
-Theorem C15_from_dataset_identity : forall target has_cs d d',
-  sr_from_dataset target has_cs d = Ok d' ->
-  d' = d /\ has_cs = true /\
-  (target = Comprehensive -> d_cls d = 1) /\ (target = Comprehensive3D -> d_cls d = 2).
-Proof. exact from_dataset_identity. Qed.
-Print Assumptions C15_from_dataset_identity.
+(* construct, write, parse - in terms of the tree GIVEN: every descendant with all of its optional
+   attributes, the root's name, template (any identifier) and continuity are exposed unchanged;
+   the whole document is equal when the root is a plain container item *)
+Theorem C15_parsed_tree : forall c a d root, sr_init c a = Ok d -> single_root (a_content a) = Some root ->
+  exists d', srread d = Ok (c, d') /\
+    descendants (d_content d') = descendants root /\
+    i_vt (d_content d') = CONTAINER /\ i_tag (d_content d') = i_tag root /\ i_rel (d_content d') = 0 /\
+    (forall k, root_key k = true -> attr_get k (i_attrs (d_content d')) = attr_get k (i_attrs root)) /\
+    is_report (d_content d') = is_report root /\
+    (root_typed root -> d' = d /\ d_content d' = root).
+Proof. exact parsed_tree. Qed.
+Print Assumptions C15_parsed_tree.
+
+(* FULL clause "parsing a written document exposes an equal tree" (no premise on the root) is
+   REFUTED by the faithful model: a root item that carries any other attribute (here key 20,
+   ObservationUID, set on the root dataset by the caller) is accepted, written intact, and parsed
+   into a tree whose root lacks it.  Replayed on the real code (see claims note). *)
+Definition ex_foreign_root : item :=
+  Item CONTAINER 1 0 None [(1, [2000]); (20, [7])] [Item TEXT 2 1 None [] []].
+Theorem C15_parse_equal_tree_refuted :
+  exists c a d d', sr_init c a = Ok d /\ single_root (a_content a) = Some (d_content d) /\
+                   srread d = Ok (c, d') /\ d_content d' <> d_content d.
+Proof.
+  exists Comprehensive, (Args [Evd 1 0 1 11] (CDataset ex_foreign_root) true true false false false None None None true).
+  eexists. eexists. split; [vm_compute; reflexivity|]. split; [reflexivity|].
+  split; [vm_compute; reflexivity|]. cbn. discriminate.
+Qed.
+Print Assumptions C15_parse_equal_tree_refuted.
 
 (* ---- key object selection documents ------------------------------------------------------------ *)
 Theorem C15_key_object_document : forall ev ts root d, ko_init ev ts root = Ok d ->
@@ -299,11 +356,11 @@ Print Assumptions C15_frames_of_segment.
    instance; the same tree with a SCOORD3D item at depth 3 is refused by
    EnhancedSR and accepted by Comprehensive3DSR *)
 Definition ex_tree (deep : vt) : item :=
-  Item CONTAINER 1 0 None
-    [Item IMAGE 2 1 (Some (1, 0)) [];
-     Item CONTAINER 3 1 None
-       [Item NUM 4 1 None [Item deep 5 3 None []];
-        Item IMAGE 2 4 (Some (1, 0)) [Item COMPOSITE 6 4 (Some (2, 2)) []]]].
+  Item CONTAINER 1 0 None [(1, [2000]); (2, [])]
+    [Item IMAGE 2 1 (Some (1, 0)) [(5, [2; 3])] [];
+     Item CONTAINER 3 1 None [(1, [1600])]
+       [Item NUM 4 1 None [(3, [114006])] [Item deep 5 3 None [] []];
+        Item IMAGE 2 4 (Some (1, 0)) [] [Item COMPOSITE 6 4 (Some (2, 2)) [] []]]].
 Definition ex_ev : list evd := [Evd 3 0 1 11; Evd 1 0 1 11; Evd 2 2 2 21; Evd 1 0 1 11].
 Definition ex_args (deep : vt) : sr_args :=
   Args ex_ev (CDataset (ex_tree deep)) true true true false true (Some 7) (Some 8) None true.
@@ -314,14 +371,15 @@ Example C15_example :
      d_current d = [(1, [(11, [(1, 0)])]); (2, [(21, [(2, 2)])])] /\
      d_other d = [(1, [(11, [(3, 0)])])] /\
      get_evidence d false = [(1, 11, 1, 0); (2, 21, 2, 2); (1, 11, 3, 0)] /\
-     d_observer d = Some (7, 8)) /\
+     d_observer d = Some (7, 8) /\ root_typed (d_content d) /\ srread d = Ok (Comprehensive, d)) /\
   referenced (ex_tree TEXT) 2 /\
   sr_init Enhanced (ex_args SCOORD3D) = Err "ValueError" /\
   (exists d, sr_init Comprehensive3D (ex_args SCOORD3D) = Ok d) /\
   collect_evidence true [Evd 1 0 1 11] (ex_tree TEXT) = Err "ValueError".
 Proof.
-  split; [eexists; split; [vm_compute; reflexivity|repeat split; reflexivity]|].
-  split; [exists (Item COMPOSITE 6 4 (Some (2, 2)) []), 2; vm_compute; intuition|].
+  split; [eexists; split; [vm_compute; reflexivity|repeat split; try reflexivity;
+          cbn; intros kv [<-|[<-|[]]]; reflexivity]|].
+  split; [exists (Item COMPOSITE 6 4 (Some (2, 2)) [] []), 2; vm_compute; intuition|].
   split; [vm_compute; reflexivity|]. split; [eexists; vm_compute; reflexivity|vm_compute; reflexivity].
 Qed.
 Print Assumptions C15_example.
